@@ -173,6 +173,13 @@ func init() {
 				for _, d := range prof.U2fAuthData {
 					d.Enabled = !d.Enabled
 				}
+			case "rename-secret":
+				for _, d := range prof.U2fAuthData {
+					d.Name = vfSecretTokenName
+				}
+				for _, d := range prof.TOTPAuthData {
+					d.Name = vfSecretTokenName
+				}
 			case "rename":
 				for _, d := range prof.U2fAuthData {
 					d.Name = fmt.Sprintf("tok-%d", st.N)
